@@ -5,6 +5,7 @@
 import SchedVerif.Driver.Parse
 import SchedVerif.Spec.Occ
 import SchedVerif.Spec.Select
+import SchedVerif.Spec.Union
 namespace SV.Drv
 open SV
 
@@ -43,6 +44,17 @@ def specP : P String := do
   | "force" => do
       let reg ← listOf nat; let inv ← listOf nat; let ret ← nat
       pure (okB (forceSpecB reg inv ret))
+  | "enum" => do
+      -- successive consumed due instants enumerate the union of occurrences after `start`
+      let tms ← listOf timingP; let start ← int; let dues ← listOf int
+      pure (okB (enumB tms start dues))
+  | "skipdue" => do
+      let tms ← listOf timingP; let t ← int; let g ← int; let due ← int
+      pure (okB (skipDueB tms t g due))
+  | "unique" => do
+      -- a timing list is accepted iff its entries denote pairwise different recurring instants
+      let tms ← listOf timingP; let accepted ← bool
+      pure (okB (uniqueB tms == accepted))
   | "cadence" => do
       -- the k-th execution (k = 1, 2, …) of a cyclic job belongs to s + k·T (delay) / s + (k-1)·T (no delay)
       let delay ← bool; let sv ← int; let T ← int; let k ← int; let due ← int
